@@ -60,10 +60,16 @@ func verifHdr(h uint64) *header.ExtendedHeader {
 
 func verifSubscribe(feed chan *header.ExtendedHeader) (*Service, <-chan *SubscriptionResponse, context.CancelFunc, context.CancelFunc) {
 	verifE = &verifEnv{failsLeft: map[uint64]int{}}
-	svcCtx, svcCancel := context.WithCancel(context.Background())
 	userCtx, userCancel := context.WithCancel(context.Background())
-	s := &Service{ctx: svcCtx, cancel: svcCancel,
+	s := &Service{
 		headerSub: func(ctx context.Context) (<-chan *header.ExtendedHeader, error) { return feed, nil }}
+	// the service goes through its real life-cycle hooks; the context handed
+	// to Start covers the start-up phase only (fx cancels it when the hook
+	// returns), the service must live on until Stop
+	startCtx, startDone := context.WithCancel(context.Background())
+	nd.Assert(s.Start(startCtx) == nil, "service-starts")
+	startDone()
+	svcCancel := func() { _ = s.Stop(context.Background()) }
 	ns := libshare.MustNewV0Namespace([]byte("verif"))
 	ch, err := s.Subscribe(userCtx, ns)
 	nd.Assert(err == nil && ch != nil, "subscribed")
